@@ -213,7 +213,7 @@ func negotiationAnchors(s *Sem) (*negAnchors, string) {
 func c09(r *Report, s *Sem) {
 	p := r.P
 	defer r.Import(s, "C12", "R4", "R10", "the upgrade really switches the byte path: the JSON encoder/decoder of a TCP transport are rebuilt over the wrapper of the current connection after a successful TLS handshake (never kept from the plain connection)", 8)
-	R1 := r.Rule("R1", "offer = configured ∩ supported: the option lists of the emitted negotiating envelope come only from the intersection helper applied to (configured list, Transport.Supported*()), and that helper only keeps elements of its first operand that pass a membership test in the second", 4)
+	R1 := r.Rule("R1", "offer = configured ∩ supported: the option lists of the emitted negotiating envelope come only from the intersection helper applied to (configured list, Transport.Supported*()), and that helper (or the same loop written in place) only keeps elements of its first operand that pass a membership test in the second", 3)
 	R2 := r.Rule("R2", "membership gate: the confirmation is sent only on the ok edges of lookups of the peer's compression and encryption in sets built only from the offered lists, for a peer envelope in state negotiating carrying the session id; the confirmed pair is the peer's selection", 6)
 	R3 := r.Rule("R3", "the server applies what it confirmed: every success path from the confirmation to the driver's return passes SetCompression/SetEncryption with the confirmed value unless it crossed the edge 'already equal'; their errors are returned; authentication starts only on the negotiation's err == nil edge", 4)
 	R4 := r.Rule("R4", "the client applies the confirmed value (a field of the server's reply, not its own request) before its next read, and aborts on an upgrade error", 4)
@@ -266,6 +266,16 @@ func c09(r *Report, s *Sem) {
 		for _, o := range origins {
 			call, _ := callOf(o)
 			if call == nil || call.Call.StaticCallee() == nil || !sameFuncOrInstance(call.Call.StaticCallee(), inter) || inter == nil {
+				elemType := "SessionCompression"
+				if field == "EncryptionOptions" {
+					elemType = "SessionEncryption"
+				}
+				if pr, isParam := stripConv(o).(*ssa.Parameter); isParam && pr.Parent() == na.serverEst {
+					if okIn, why := inlineIntersection(s, na, elemType, supported); okIn {
+						detail = why
+						continue
+					}
+				}
 				okAll = false
 				detail = "an offered element may come from " + describe(o) + " (not from the intersection of configured and supported)"
 				continue
@@ -1301,12 +1311,18 @@ func c10(r *Report, s *Sem) {
 		}
 	}
 	inter := p.Func("intersect")
-	ok2 := neg != nil && inter != nil
+	ok2 := neg != nil
 	detail := ""
 	if ok2 {
 		for _, o := range sliceOrigins(neg) {
 			call, _ := callOf(o)
 			if call == nil || !sameFuncOrInstance(call.Call.StaticCallee(), inter) {
+				if pr, isParam := stripConv(o).(*ssa.Parameter); isParam && pr.Parent() == na.serverEst {
+					if okIn, why := inlineIntersection(s, na, "SessionEncryption", "SupportedEncryption"); okIn {
+						detail = why
+						continue
+					}
+				}
 				ok2 = false
 				detail = "an element may come from " + describe(o)
 				continue
@@ -1347,6 +1363,17 @@ func checkIntersectExact(r *Report, s *Sem, R1 string) {
 	p := r.P
 	inter := p.Func("intersect")
 	if inter == nil {
+		// no helper: the intersection may be written in place in the handshake
+		if na, _ := negotiationAnchors(s); na != nil {
+			okC, whyC := inlineIntersection(s, na, "SessionCompression", "SupportedCompression")
+			okE, whyE := inlineIntersection(s, na, "SessionEncryption", "SupportedEncryption")
+			if okC && okE {
+				r.Check(R1, "func "+fnName(na.serverEst)+" / in-place intersection keeps only configured elements found among the supported ones", p.instrPos(na.negCall), true, whyC+"; "+whyE)
+				return
+			}
+			r.Undecided(R1, "anchor-unresolved:intersect", "-", "no intersection helper, and the lists are not built in place in the recognised form: "+whyC+" / "+whyE)
+			return
+		}
 		r.Undecided(R1, "anchor-unresolved:intersect", "-", "intersection helper not found")
 	} else {
 		contains := p.Func("contains")
@@ -1444,4 +1471,132 @@ func membershipCall(p *Prog, call *ssa.Call) (list, elem ssa.Value, ok bool) {
 		return call.Call.Args[0], call.Call.Args[1], true
 	}
 	return nil, nil, false
+}
+
+// inlineIntersection: the negotiable list of the given element type handed to the negotiation driver is built in place
+// (the intersection helper folded into the handshake): it starts empty, and every append adds one element configured[i]
+// (i = 0,1,2,…) on the edge where that same value was found equal to supported[j] (j = 0,1,2,…; or by a membership call),
+// with supported = Transport.<supported>().
+func inlineIntersection(s *Sem, na *negAnchors, elemType, supported string) (bool, string) {
+	p := s.p
+	var list ssa.Value
+	for _, arg := range na.negCall.Call.Args {
+		if sl, ok := arg.Type().Underlying().(*types.Slice); ok {
+			if n := namedOf(sl.Elem()); n != nil && n.Obj().Name() == elemType {
+				list = arg
+			}
+		}
+	}
+	if list == nil {
+		return false, "no " + elemType + " list handed to the negotiation driver"
+	}
+	var appends []*ssa.Call
+	seen := map[ssa.Value]bool{}
+	okBase := true
+	var walk func(v ssa.Value, d int)
+	walk = func(v ssa.Value, d int) {
+		v = stripConv(v)
+		if seen[v] || d > 30 {
+			return
+		}
+		seen[v] = true
+		switch x := v.(type) {
+		case *ssa.Phi:
+			for _, e := range x.Edges {
+				walk(e, d+1)
+			}
+		case *ssa.Call:
+			if b, ok := x.Call.Value.(*ssa.Builtin); ok && b.Name() == "append" {
+				appends = append(appends, x)
+				walk(x.Call.Args[0], d+1)
+				return
+			}
+			okBase = false
+		case *ssa.Slice:
+			// a zero-length literal
+			if al, ok := x.X.(*ssa.Alloc); ok {
+				if arr, ok := al.Type().(*types.Pointer).Elem().Underlying().(*types.Array); ok && arr.Len() == 0 {
+					return
+				}
+			}
+			okBase = false
+		case *ssa.MakeSlice:
+			if k, ok := constInt(x.Len); !ok || k != 0 {
+				okBase = false
+			}
+		case *ssa.Const:
+		default:
+			okBase = false
+		}
+	}
+	walk(list, 0)
+	if !okBase || len(appends) == 0 {
+		return false, "the list is not built from an empty slice by appends in the handshake"
+	}
+	isSupportedElem := func(v ssa.Value) bool {
+		u, ok := stripConv(v).(*ssa.UnOp)
+		if !ok || u.Op != token.MUL {
+			return false
+		}
+		ia, ok := u.X.(*ssa.IndexAddr)
+		if !ok || !ascendingFromZero(ia.Index) {
+			return false
+		}
+		n := 0
+		for _, l := range leaves(ia.X) {
+			n++
+			if c2, _ := callOf(l); c2 == nil || !s.isTransportCall(c2, supported) {
+				return false
+			}
+		}
+		return n > 0
+	}
+	for _, ap := range appends {
+		els := sliceOriginsElems(ap.Call.Args[1])
+		if len(els) != 1 {
+			return false, "an append adds more than one element at " + p.instrPos(ap)
+		}
+		el := stripConv(els[0])
+		u, ok := el.(*ssa.UnOp)
+		if !ok || u.Op != token.MUL {
+			return false, "appended element " + describe(el) + " is not an element of the configured list"
+		}
+		ia, ok := u.X.(*ssa.IndexAddr)
+		if !ok {
+			return false, "appended element " + describe(el) + " is not an element of the configured list"
+		}
+		pr, isParam := stripConv(ia.X).(*ssa.Parameter)
+		if !isParam || pr.Parent() != na.serverEst || !ascendingFromZero(ia.Index) {
+			return false, "appended element is not configured[i] with i = 0,1,2,…"
+		}
+		guard := condGuard(ap.Block(), func(cd Cond) bool {
+			if cd.Op == token.EQL {
+				x, y := stripConv(cd.X), stripConv(cd.Y)
+				if x == el && isSupportedElem(y) {
+					return true
+				}
+				if y == el && isSupportedElem(x) {
+					return true
+				}
+				return false
+			}
+			if cd.Op == token.ILLEGAL && cd.True {
+				if call, _ := callOf(cd.Val); call != nil {
+					if l, e, isMember := membershipCall(p, call); isMember && stripConv(e) == el {
+						for _, o := range leaves(l) {
+							if c2, _ := callOf(o); c2 == nil || !s.isTransportCall(c2, supported) {
+								return false
+							}
+						}
+						return true
+					}
+				}
+			}
+			return false
+		})
+		if !guard {
+			return false, "the append at " + p.instrPos(ap) + " is not on the edge where the configured element was found among Transport." + supported + "()"
+		}
+	}
+	return true, fmt.Sprintf("built in place: %d append(s) of configured[i] on the edge 'found in %s()'", len(appends), supported)
 }
